@@ -796,4 +796,10 @@ func genC18Wide(g *Gen) {
 		}
 		emitPair(h, wcalls, c18Data(il, 200), fev, *stored, sw, class, fmt.Sprintf("pair-rand-f%d", fmode))
 	}
+
+	// ---- pbcmpl frames in one file through AtToWriter / AtToReader ----
+	genC18Pbcmpl(g)
+
+	// ---- sections of sections ----
+	genC18Nested(g)
 }
